@@ -12,7 +12,7 @@
 (* Outcome(args) adds what Parse does with the collected texts: built-in   *)
 (* -help / -config, and errors for unparsable effective values.            *)
 (***************************************************************************)
-EXTENDS Integers, Sequences, FiniteSets, TLC
+EXTENDS GoLit, FiniteSets, TLC
 
 DASH == 45
 EQ   == 61
@@ -94,11 +94,15 @@ FalseTexts == { <<48>>, <<102>>, <<70>>, <<70, 65, 76, 83, 69>>, <<102, 97, 108,
 BoolClass(t) == IF t \in TrueTexts THEN "true" ELSE IF t \in FalseTexts \/ t = <<>> THEN "false" ELSE "invalid"
 
 Digit(c) == c \in 48..57
-\* decimal texts the model understands exactly: optional sign, 1..9 digits, no leading zero (base-0 rules)
+\* Integer texts: short ones (<= 7 bytes, far from any range limit) are read exactly by the Go integer
+\* literal grammar of GoLit (base prefixes, leading-zero octal, underscores); longer ones are understood
+\* when they are plain decimals of at most 9 digits, and left to strconv otherwise.
 RECURSIVE DecVal(_, _, _)
 DecVal(t, k, acc) == IF k > Len(t) THEN acc ELSE DecVal(t, k + 1, acc * 10 + (t[k] - 48))
 IntClass(t) ==
   IF t = <<>> THEN [c |-> "valid", v |-> 0]
+  ELSE IF Len(t) <= 7 THEN
+       LET r == IntLit(t, TRUE) IN IF r.ok THEN [c |-> "valid", v |-> r.v] ELSE [c |-> "invalid", v |-> 0]
   ELSE LET neg == t[1] = 45
            sgn == t[1] \in {43, 45}
            d   == IF sgn THEN SubSeq(t, 2, Len(t)) ELSE t
@@ -106,11 +110,11 @@ IntClass(t) ==
           ELSE IF \A k \in 1..Len(d) : Digit(d[k]) THEN
                IF Len(d) <= 9 /\ (d[1] # 48 \/ Len(d) = 1)
                THEN [c |-> "valid", v |-> IF neg THEN 0 - DecVal(d, 1, 0) ELSE DecVal(d, 1, 0)]
-               ELSE [c |-> "unknown", v |-> 0]                    \* octal / overflow: strconv's business
+               ELSE [c |-> "unknown", v |-> 0]                    \* long octal / overflow: strconv's business
           ELSE IF \E k \in 1..Len(d) : ~(Digit(d[k]) \/ d[k] \in {95, 120, 88, 111, 79, 98, 66}
                                           \/ d[k] \in 97..102 \/ d[k] \in 65..70)
                THEN [c |-> "invalid", v |-> 0]                    \* a byte no integer literal can contain
-          ELSE [c |-> "unknown", v |-> 0]                         \* 0x1f, 1_000, ...: trusted to strconv
+          ELSE [c |-> "unknown", v |-> 0]                         \* long 0x.., 1_000_000, ...: trusted to strconv
 
 \* ExistingConfig: the one config path that exists (holds "{}"); any other non-empty path fails
 Outcome(args, ExistingConfig) ==
